@@ -249,6 +249,9 @@ class UDP6EndpointAddress(interfaces.EndpointAddress):
 
     @property
     def is_multicast_locally(self):
+        if self.pktinfo is None:
+            # No local address known, as in the result of as_response_address
+            return False
         return ipaddress.ip_address(self._plainaddress_local()).is_multicast
 
     def as_response_address(self):
